@@ -281,25 +281,40 @@ fn monitor_inner(prop: &Property, args: &Args, scratch: &Path) -> i32 {
         let mut f = std::fs::File::create(&path).unwrap();
         let _ = f.write_all(serde_json::to_string_pretty(&j).unwrap().as_bytes());
         drop(f);
-        let mut c = spawn_inner(args, "none", Some(&path));
-        match supervise(&mut c, None, limit, Some(limit)) {
-            Outcome::Exit(1) => {
-                // the inner replay already printed its VIOLATION line
-                found += 1;
+        // A hang that depends on the thread schedule (the properties that quantify over schedules: C15, C19) does not
+        // come back on the first re-execution: the suspect is re-executed up to 60 times (each re-execution repeats the
+        // case `replay_reps` times, a few hundred executions); a deterministic hang needs one.
+        let attempts = if prop.id == "C15" || prop.id == "C19" { 60 } else { 1 };
+        for attempt in 0..attempts {
+            let mut c = spawn_inner(args, "none", Some(&path));
+            match supervise(&mut c, None, limit, Some(limit)) {
+                Outcome::Exit(1) => {
+                    // the inner replay already printed its VIOLATION line
+                    found += 1;
+                }
+                Outcome::Exit(_) => {}
+                Outcome::Signal(s) => {
+                    println!("VIOLATION property={} replay={}", prop.id, path.display());
+                    println!("  part={} sig=signal:{} the case kills the process (stack overflow / abort)", part.name, s);
+                    found += 1;
+                }
+                Outcome::Hang(_) => {
+                    println!("VIOLATION property={} replay={}", prop.id, path.display());
+                    println!(
+                        "  part={} sig=hang the case does not return within {} s{}",
+                        part.name,
+                        limit.as_secs(),
+                        if attempt > 0 { format!(" (schedule-dependent: re-execution {} of the isolated case)", attempt + 1) } else { String::new() }
+                    );
+                    found += 1;
+                }
             }
-            Outcome::Exit(_) => {
-                let _ = std::fs::remove_file(&path);
+            if found > 0 {
+                break;
             }
-            Outcome::Signal(s) => {
-                println!("VIOLATION property={} replay={}", prop.id, path.display());
-                println!("  part={} sig=signal:{} the case kills the process (stack overflow / abort)", part.name, s);
-                found += 1;
-            }
-            Outcome::Hang(_) => {
-                println!("VIOLATION property={} replay={}", prop.id, path.display());
-                println!("  part={} sig=hang the case does not return within {} s", part.name, limit.as_secs());
-                found += 1;
-            }
+        }
+        if found == 0 {
+            let _ = std::fs::remove_file(&path);
         }
     }
     if found > 0 {
